@@ -12,14 +12,47 @@ EXPLANATION = ('create_hashes writes only the slots of non-NULL rows of the firs
                'filter routing). On each path the buffer must have been created as vec![0; n] and not written since, or reset by clear() '
                'followed by resize(n, 0); a buffer received as a parameter moves the obligation to every caller. With a stale buffer a NULL '
                'key hashes to whatever an earlier batch left in its slot: equal keys get different hashes (this rule found the symmetric '
-               'hash join defect repaired by fix commit ba1344a). The hash kernels themselves (layout independence per array encoding, '
-               '-0.0/+0.0, dictionary and view handling) are value-level and not decided.')
+               'hash join defect repaired by fix commit ba1344a). Nested kernels: each hash kernel over a nested array type with its own validity (struct, list, list view, fixed-size list, map) queries the per-row validity of the parent (a null_count() fast-path test alone does not count), so child values under a NULL parent cannot reach the hash. The rest of the hash kernels (layout independence per array encoding, '
+               '-0.0/+0.0, dictionary and view handling) is value-level and not decided.')
 ASSUMPTIONS = ['the buffer is reachable only through the place it is named by at the call (no raw-pointer aliasing)',
                'loops are cut after one iteration; the initialisation idiom and the call are in the same iteration at every site']
 
 
+
+NESTED_WITH_VALIDITY = ('struct_array::StructArray', 'list_array::GenericListArray', 'list_view_array::GenericListViewArray',
+                        'fixed_size_list_array::FixedSizeListArray', 'map_array::MapArray')
+VALIDITY_QUERIES = ('::nulls', '::is_valid', '::is_null', '::valid_indices', '::logical_nulls')
+
+
+def nested_kernels_consult_validity(ctx, f, prefix='datafusion_common::hash_utils::hash_', arg_types=NESTED_WITH_VALIDITY,
+                                    queries=VALIDITY_QUERIES, rule='nested-kernel-consults-validity'):
+    """A hash kernel for a nested array type that has its own validity (struct, list, list view, fixed-size list, map) must look at the
+    parent's validity per row (nulls()/is_valid/is_null/valid_indices) — a null_count() fast-path test alone does not count — or the
+    child values that happen to sit under a NULL parent flow into the hash and equal keys (NULL = NULL) hash differently."""
+    n = 0
+    for d in sorted(x for x in f.fn_index if x.startswith(prefix) and '{closure' not in x):
+        sg = f.sig(d)
+        if not sg or len(sg) < 2 or not any(t in sg[1] for t in arg_types):
+            continue
+        n += 1
+        ctx.analysed_fns.add(d)
+        tree = [d] + [x for x in f.fn_index if x.startswith(d + '::{closure')]
+        cal = set()
+        for t in tree:
+            cal |= set(f.callees.get(t, ()))
+        q = sorted(c for c in cal if c.endswith(queries))
+        if q:
+            ctx.ok(rule, d.rsplit('::', 1)[-1], sample={'kernel': d, 'validity_queries': [c.rsplit('::', 2)[-2] + '::' + c.rsplit('::', 1)[-1] for c in q][:3]})
+        else:
+            rec = f.fn(d)
+            ctx.fail(rule, d.rsplit('::', 1)[-1], ctx.loc(rec), 'this kernel hashes a nested array that has its own validity but never looks at the validity of a row: child '
+                     'values under a NULL parent influence the hash of the NULL row', key='%s|%s' % (rule, d))
+    return n
+
 def run(ctx):
     n = hashbuf.check_callers(ctx, 'zeroed-hash-buffer', floor=30)
+    nk = nested_kernels_consult_validity(ctx, ctx.facts)
+    ctx.floor('nested-kernel-consults-validity', 'hash kernels over nested arrays with validity', nk, 5)
     import common
     st = ctx.st
     probe = common.Ctx(ctx.pid, ctx.tier, st, st, {})
@@ -30,3 +63,7 @@ def run(ctx):
     ctx.selftest('detects resize without clear (bad_reuse), clear on one branch only (bad_branch), a non-zero fresh buffer (bad_fresh), a caller of a '
                  'pass-through function that does not clear (bad_caller_of_update); accepts the four good shapes',
                  all(x in keys for x in ('bad_reuse', 'bad_branch', 'bad_fresh', 'bad_caller_of_update')) and 'good_' not in keys)
+    nested_kernels_consult_validity(probe, st, prefix='dfscan_selftest::hashbuf::hash_list_', arg_types=('hashbuf::ListArr',), queries=('::is_valid',), rule='st-nested')
+    k2 = [v['key'] for v in probe.viol if v['key'].startswith('st-nested|')]
+    ctx.selftest('nested-kernel rule reports a list kernel that never consults validity (hash_list_bad), accepts hash_list_good',
+                 any('hash_list_bad' in k for k in k2) and not any('hash_list_good' in k for k in k2))
